@@ -177,6 +177,21 @@ func WireAddr(r *rand.Rand) map[wallet.BackendID]wire.Address {
 	return map[wallet.BackendID]wire.Address{B: simwire.NewRandomAddress(r)}
 }
 
+// WireAddrAny returns a wire address map as a multi-backend node has it: mostly one entry under
+// backend 0, sometimes one to three entries under other backend ids (wire addresses need no
+// registered backend to be decoded).
+func WireAddrAny(r *rand.Rand) map[wallet.BackendID]wire.Address {
+	if r.Intn(10) < 6 {
+		return WireAddr(r)
+	}
+	pool := []wallet.BackendID{0, 1, 2, 3, 256, 0x01020304, 0x7fffffff}
+	m := map[wallet.BackendID]wire.Address{}
+	for n := 1 + r.Intn(3); len(m) < n; {
+		m[pool[r.Intn(len(pool))]] = simwire.NewRandomAddress(r)
+	}
+	return m
+}
+
 // ID returns a random channel id.
 func ID(r *rand.Rand) (id channel.ID) {
 	r.Read(id[:])
